@@ -1125,25 +1125,25 @@ impl<'a> GeneratorState<'a> {
         }
     }
 
+    // A delay instruction on the DUMMY cell: an explicit access the optimizer must keep (like
+    // load/store/strobe). DUMMY only exists on targets that declare it
+    fn csleep_dummy(&mut self, mnemonic: crate::assemble::AsmMnemonic, pos: usize) -> Result<bool, Error> {
+        self.checked_variable("DUMMY", pos)?;
+        self.protected = true;
+        let ret = self.asm(mnemonic, &ExprType::Absolute("DUMMY".into(), true, 0), pos, false);
+        self.protected = false;
+        ret
+    }
+
     fn generate_csleep_statement(&mut self, cycles: i32, pos: usize) -> Result<(), Error> {
         match cycles {
             2 => self.sasm_protected(NOP)?,
-            3 => self.asm(
-                STA,
-                &ExprType::Absolute("DUMMY".into(), true, 0),
-                pos,
-                false,
-            )?,
+            3 => self.csleep_dummy(STA, pos)?,
             4 => {
                 self.sasm_protected(NOP)?;
                 self.sasm_protected(NOP)?
             }
-            5 => self.asm(
-                DEC,
-                &ExprType::Absolute("DUMMY".into(), true, 0),
-                pos,
-                false,
-            )?,
+            5 => self.csleep_dummy(DEC, pos)?,
             6 => {
                 self.sasm_protected(NOP)?;
                 self.sasm_protected(NOP)?;
@@ -1160,28 +1160,13 @@ impl<'a> GeneratorState<'a> {
                 self.sasm_protected(NOP)?
             }
             9 => {
-                self.asm(
-                    DEC,
-                    &ExprType::Absolute("DUMMY".into(), true, 0),
-                    pos,
-                    false,
-                )?;
+                self.csleep_dummy(DEC, pos)?;
                 self.sasm_protected(NOP)?;
                 self.sasm_protected(NOP)?
             }
             10 => {
-                self.asm(
-                    DEC,
-                    &ExprType::Absolute("DUMMY".into(), true, 0),
-                    pos,
-                    false,
-                )?;
-                self.asm(
-                    DEC,
-                    &ExprType::Absolute("DUMMY".into(), true, 0),
-                    pos,
-                    false,
-                )?
+                self.csleep_dummy(DEC, pos)?;
+                self.csleep_dummy(DEC, pos)?
             }
             _ => {
                 return Err(self
